@@ -761,4 +761,258 @@ theorem tensor_subs_sem {V : Type} (t : NT V) (σ : Sigma) (env : Name → Nat) 
     (eagerSubs t σ).at env ev = t.at (updEnv env σ) ev :=
   eagerSubsWith_at matFixed t σ env ev hk (matFixed_ok _ _ hins)
 
+
+/-! ### The inputs clause -/
+
+/-- What input `p` of the tensor contributes to the result's inputs under σ. -/
+def Contrib (σ : Sigma) (p : Name × Nat) (n : Name) : Prop :=
+  (sget σ p.1 = none ∧ n = p.1) ∨ ∃ v, sget σ p.1 = some v ∧ n ∈ names v.inputs
+
+theorem names_eagerSubsIdx {V : Type} (t : NT V) (σ : Sigma) (n : Name) :
+    n ∈ names (eagerSubsIdx t σ).inputs ↔ ∃ q ∈ t.inputs, Contrib (restrictTo t.inputs σ) q n := by
+  unfold eagerSubsIdx
+  simp only []
+  split
+  · rename_i he
+    have : restrictTo t.inputs σ = [] := by simpa using he
+    rw [this]
+    simp only [Contrib, sget, true_and, reduceCtorEq, false_and, exists_false, or_false, names, List.mem_map]
+    constructor
+    · rintro ⟨q, hq, rfl⟩; exact ⟨q, hq, rfl⟩
+    · rintro ⟨q, hq, rfl⟩; exact ⟨q, hq, rfl⟩
+  · simp only [advIndex]
+    exact mem_names_advInputs _ _ _
+
+/-- The facts about what is left for the recursive call after the renaming pass. -/
+theorem recFacts {V : Type} (t : NT V) (σ2 : Sigma)
+    (hk : (skeys σ2).Nodup) (hsub : ∀ k ∈ skeys σ2, k ∈ names t.inputs)
+    (hnd : (names (newKeys t.inputs σ2)).Nodup) :
+    let σ3 := restrictTo (renamePass t σ2).inputs (dropRen σ2)
+    (∀ p ∈ t.inputs, ∀ v, sget σ2 p.1 = some v → v.isRen = false → sget σ3 p.1 = some v) ∧
+    (∀ k, sget σ2 k = none → sget σ3 k = none) ∧
+    (∀ p ∈ t.inputs, ∀ v x, sget σ2 p.1 = some v → v.target? = some x → sget σ3 x = none) := by
+  intro σ3
+  have hti := renamePass_inputs t σ2 hnd
+  have F1 : ∀ x w, sget σ3 x = some w → sget σ2 x = some w ∧ w.isRen = false := by
+    intro x w h
+    simp only [σ3, sget_restrictTo] at h
+    split at h
+    · have hm := mem_dropRen.mp (sget_mem h)
+      exact ⟨sget_of_mem_nodup hk hm.1, hm.2⟩
+    · cases h
+  refine ⟨?_, ?_, ?_⟩
+  · intro p hp v hv hr
+    simp only [σ3, sget_restrictTo, hti]
+    have hmem : p.1 ∈ names (newKeys t.inputs σ2) := by
+      rw [names_newKeys]
+      refine List.mem_map.mpr ⟨p, hp, ?_⟩
+      rw [renEntry_nonren σ2 p (by intro v' hv'; rw [hv] at hv'; cases hv'; exact hr)]
+    simp only [hmem, if_true]
+    exact sget_dropRen_some hv hr
+  · intro k h
+    cases h3 : sget σ3 k with
+    | none => rfl
+    | some w => rw [(F1 k w h3).1] at h; cases h
+  · intro p hp v x hv hx
+    cases h3 : sget σ3 x with
+    | none => rfl
+    | some w =>
+      exfalso
+      obtain ⟨hw, hwr⟩ := F1 x w h3
+      have hxk : x ∈ skeys σ2 := List.mem_map.mpr ⟨(x, w), sget_mem hw, rfl⟩
+      obtain ⟨q, hq, hqx⟩ := List.mem_map.mp (hsub x hxk)
+      have hqn : (renEntry σ2 q).1.1 = x := by
+        rw [renEntry_nonren σ2 q (by intro v' hv'; rw [hqx, hw] at hv'; cases hv'; exact hwr)]; exact hqx
+      have hpn : (renEntry σ2 p).1.1 = x := by
+        unfold renEntry; rw [hv]
+        cases v <;> simp_all [SVal.target?]
+      have hnd' := hnd
+      rw [names_newKeys] at hnd'
+      have hqp := inj_of_nodup_map _ t.inputs hnd' q hq p hp (hqn.trans hpn.symm)
+      subst hqp
+      rw [hqx, hw] at hv
+      have hwv : w = v := Option.some.inj hv
+      rw [hwv] at hwr
+      cases v <;> simp_all [SVal.target?, SVal.isRen]
+
+theorem eagerSubsWith_inputs {V : Type} (mat : Inputs → Sigma → Sigma) (t : NT V) (σ0 : Sigma)
+    (_hins : (names t.inputs).Nodup) (hk : (skeys σ0).Nodup)
+    (hmat : MatOK t.inputs (restrictTo t.inputs σ0) (mat t.inputs (restrictTo t.inputs σ0)))
+    (hmi : ∀ k, (sget (mat t.inputs (restrictTo t.inputs σ0)) k).map (fun v => names v.inputs) =
+                (sget (restrictTo t.inputs σ0) k).map (fun v => names v.inputs)) (n : Name) :
+    n ∈ names (eagerSubsWith mat t σ0).inputs ↔ ∃ p ∈ t.inputs, Contrib σ0 p n := by
+  -- restricting σ0 to the inputs changes no contribution
+  have hres : ∀ p ∈ t.inputs, (Contrib σ0 p n ↔ Contrib (restrictTo t.inputs σ0) p n) := by
+    intro p hp
+    have : p.1 ∈ names t.inputs := List.mem_map.mpr ⟨p, hp, rfl⟩
+    simp only [Contrib, sget_restrictTo, this, if_true]
+  have hres' : (∃ p ∈ t.inputs, Contrib σ0 p n) ↔ ∃ p ∈ t.inputs, Contrib (restrictTo t.inputs σ0) p n := by
+    constructor <;> rintro ⟨p, hp, h⟩
+    · exact ⟨p, hp, (hres p hp).mp h⟩
+    · exact ⟨p, hp, (hres p hp).mpr h⟩
+  rw [hres']
+  generalize hσ : restrictTo t.inputs σ0 = σ at hmat hmi
+  have hkσ : (skeys σ).Nodup := hσ ▸ nodup_skeys_restrictTo _ _ hk
+  have hsub : ∀ k ∈ skeys σ, k ∈ names t.inputs := hσ ▸ skeys_restrictTo_sub _ _
+  -- contributions are the same under σ and under the materialized σ2
+  have hc2 : ∀ p, Contrib (mat t.inputs σ) p n ↔ Contrib σ p n := by
+    intro p
+    have := hmi p.1
+    simp only [Contrib]
+    cases h2 : sget (mat t.inputs σ) p.1 <;> cases h1 : sget σ p.1 <;> simp_all
+  unfold eagerSubsWith
+  simp only [hσ]
+  split
+  · rename_i he
+    have : σ = [] := by simpa using he
+    subst this
+    simp only [Contrib, sget, true_and, reduceCtorEq, false_and, exists_false, or_false, names, List.mem_map]
+    constructor <;> (rintro ⟨q, hq, rfl⟩; exact ⟨q, hq, rfl⟩)
+  · split
+    · rename_i hany
+      have hk2 : (skeys (mat t.inputs σ)).Nodup := hmat.keys ▸ hkσ
+      have hsub2 : ∀ k ∈ skeys (mat t.inputs σ), k ∈ names t.inputs := by rw [hmat.keys]; exact hsub
+      have hnd := hmat.nocoll hany
+      have hti := renamePass_inputs t (mat t.inputs σ) hnd
+      rw [names_eagerSubsIdx]
+      obtain ⟨F2, F3, F4⟩ := recFacts t (mat t.inputs σ) hk2 hsub2 hnd
+      rw [hti]
+      -- per input
+      have hper : ∀ p ∈ t.inputs,
+          (Contrib (restrictTo (newKeys t.inputs (mat t.inputs σ)) (dropRen (mat t.inputs σ)))
+              (renEntry (mat t.inputs σ) p).1 n ↔ Contrib σ p n) := by
+        intro p hp
+        rw [← hc2 p, ← hti]
+        simp only [Contrib]
+        cases hv : sget (mat t.inputs σ) p.1 with
+        | none =>
+          rw [renEntry_nonren _ p (by intro v hv'; rw [hv] at hv'; cases hv')]
+          simp [F3 _ hv]
+        | some v =>
+          cases v with
+          | num m =>
+            rw [renEntry_nonren _ p (by intro v hv'; rw [hv] at hv'; cases hv'; rfl)]
+            simp [F2 p hp _ hv rfl]
+          | tensor w =>
+            rw [renEntry_nonren _ p (by intro v hv'; rw [hv] at hv'; cases hv'; rfl)]
+            simp [F2 p hp _ hv rfl]
+          | var x d =>
+            have : (renEntry (mat t.inputs σ) p).1 = (x, p.2) := by unfold renEntry; rw [hv]
+            rw [this]
+            simp [F4 p hp _ x hv rfl, SVal.inputs, names]
+          | slice x a b s =>
+            have : (renEntry (mat t.inputs σ) p).1 = (x, sliceLen a b s) := by unfold renEntry; rw [hv]
+            rw [this]
+            simp [F4 p hp _ x hv rfl, SVal.inputs, names]
+      constructor
+      · rintro ⟨q, hq, h⟩
+        obtain ⟨p, hp, rfl⟩ := List.mem_map.mp hq
+        exact ⟨p, hp, (hper p hp).mp h⟩
+      · rintro ⟨p, hp, h⟩
+        exact ⟨_, List.mem_map.mpr ⟨p, hp, rfl⟩, (hper p hp).mpr h⟩
+    · simp only [advIndex]
+      rw [mem_names_advInputs]
+      have hm : ∀ k, sget (List.map (fun p => (p.1, p.2.materialize)) (mat t.inputs σ)) k =
+          (sget (mat t.inputs σ) k).map SVal.materialize := by
+        intro k
+        generalize mat t.inputs σ = l
+        induction l with
+        | nil => rfl
+        | cons p r ih => simp only [List.map_cons, sget]; split <;> simp_all
+      constructor <;> rintro ⟨p, hp, h⟩ <;> refine ⟨p, hp, ?_⟩
+      · rw [← hc2 p]
+        simp only [Contrib, hm] at h ⊢
+        cases h2 : sget (mat t.inputs σ) p.1 <;> simp_all [materialize_inputs]
+      · rw [← hc2 p] at h
+        simp only [Contrib, hm] at h ⊢
+        cases h2 : sget (mat t.inputs σ) p.1 <;> simp_all [materialize_inputs]
+
+/-- **The inputs clause**: the inputs of `t(**σ)` are t's unsubstituted inputs together with the inputs of the
+    substituted values — exactly these (each name once). -/
+theorem tensor_subs_inputs {V : Type} (t : NT V) (σ : Sigma) (hins : (names t.inputs).Nodup)
+    (hk : (skeys σ).Nodup) (n : Name) :
+    n ∈ names (eagerSubs t σ).inputs ↔
+      (n ∈ names t.inputs ∧ sget σ n = none) ∨
+      ∃ k v, k ∈ names t.inputs ∧ sget σ k = some v ∧ n ∈ names v.inputs := by
+  have h := eagerSubsWith_inputs matFixed t σ hins hk (matFixed_ok _ _ hins)
+    (by
+      intro k
+      rw [matFixed_sget]
+      cases sget (restrictTo t.inputs σ) k with
+      | none => rfl
+      | some v => simp only [Option.map_some]; split <;> simp [materialize_inputs]) n
+  unfold eagerSubs
+  rw [h]
+  simp only [Contrib]
+  constructor
+  · rintro ⟨p, hp, (⟨h0, rfl⟩ | ⟨v, hv, hn⟩)⟩
+    · exact Or.inl ⟨List.mem_map.mpr ⟨p, hp, rfl⟩, h0⟩
+    · exact Or.inr ⟨p.1, v, List.mem_map.mpr ⟨p, hp, rfl⟩, hv, hn⟩
+  · rintro (⟨hn, h0⟩ | ⟨k, v, hk', hv, hn⟩)
+    · obtain ⟨p, hp, rfl⟩ := List.mem_map.mp hn
+      exact ⟨p, hp, Or.inl ⟨h0, rfl⟩⟩
+    · obtain ⟨p, hp, rfl⟩ := List.mem_map.mp hk'
+      exact ⟨p, hp, Or.inr ⟨v, hv, hn⟩⟩
+
+
+/-! ### What a revert looks like: the pre-fix diagonal handling on a 2×2 tensor -/
+
+/-- `t[i, j] = 1 + 2 i + j` over `i, j : Bint[2]`. -/
+def w22 : NT Nat := ⟨[("i", 2), ("j", 2)], [], fun idx => match idx with | [a, b] => 1 + 2 * a + b | _ => 0⟩
+
+/-- `t(j='i')`: the renamed-to name is a surviving input. -/
+def wσ1 : Sigma := [("j", SVal.var "i" 2)]
+/-- `t(i='k', j=Slice('k', 0, 2, 1))`: a variable and a slice onto the same fresh name (a7b9cd2). -/
+def wσ2 : Sigma := [("i", SVal.var "k" 2), ("j", SVal.slice "k" 0 2 1)]
+/-- `t3(l='i', j='l')` with `i` surviving, a chain (93ae599), on a 2×2×2 tensor. -/
+def w222 : NT Nat := ⟨[("i", 2), ("j", 2), ("l", 2)], [], fun idx => match idx with | [a, b, c] => 1 + 4 * a + 2 * b + c | _ => 0⟩
+def wσ3 : Sigma := [("l", SVal.var "i" 2), ("j", SVal.var "l" 2)]
+
+def envI (i : Nat) : Name → Nat := fun n => if n = "i" then i else 0
+
+/-- On the pinned tree the renaming pass overwrote the surviving key: the result has ONE input for TWO
+    positional axes (a batch dimension became an event dimension: shape [2] instead of []), and its value at
+    `i = 1` is not `t[1, 1] = 4` — the statement of `tensor_subs_sem` and the inputs clause both fail. -/
+theorem tensor_subs_collision_witness :
+    (eagerSubsPre w22 wσ1).inputs = [("i", 2)] ∧ (eagerSubsPre w22 wσ1).shape = [2] ∧
+    (eagerSubsPre w22 wσ1).at (envI 1) [] ≠ w22.at (updEnv (envI 1) wσ1) [] ∧
+    -- HEAD: the diagonal
+    (eagerSubs w22 wσ1).inputs = [("i", 2)] ∧ (eagerSubs w22 wσ1).shape = [] ∧
+    (eagerSubs w22 wσ1).at (envI 1) [] = 4 ∧ w22.at (updEnv (envI 1) wσ1) [] = 4 := by
+  decide
+
+/-- The two later fixes, same shape of failure: variable + slice onto one name; a chain through a kept input. -/
+theorem tensor_subs_collision_witness_slice :
+    (eagerSubsPre w22 wσ2).inputs = [("k", 2)] ∧ (eagerSubsPre w22 wσ2).shape = [2] ∧
+    (eagerSubs w22 wσ2).inputs = [("k", 2)] ∧ (eagerSubs w22 wσ2).shape = [] := by
+  decide
+
+theorem tensor_subs_collision_witness_chain :
+    (names (eagerSubsPre w222 wσ3).inputs) = ["i", "l"] ∧ (eagerSubsPre w222 wσ3).shape = [2] ∧
+    (names (eagerSubs w222 wσ3).inputs) = ["i", "l"] ∧ (eagerSubs w222 wσ3).shape = [] := by
+  decide
+
+/-- Non-vacuity: the hypotheses of `tensor_subs_sem` hold for the witnesses (so HEAD is right on them). -/
+example : (names w22.inputs).Nodup ∧ (skeys wσ1).Nodup ∧ (skeys wσ2).Nodup := by decide
+example : (eagerSubs w22 wσ1).at (envI 1) [] = w22.at (updEnv (envI 1) wσ1) [] :=
+  tensor_subs_sem w22 wσ1 (envI 1) [] (by decide) (by decide)
+
+
+/-- Each input name of the result occurs once. -/
+theorem tensor_subs_inputs_nodup {V : Type} (t : NT V) (σ : Sigma) (hins : (names t.inputs).Nodup) :
+    (names (eagerSubs t σ).inputs).Nodup := by
+  have hmat := matFixed_ok t.inputs (restrictTo t.inputs σ) hins
+  unfold eagerSubs eagerSubsWith
+  simp only []
+  split
+  · exact hins
+  · split
+    · rename_i hany
+      unfold eagerSubsIdx
+      simp only []
+      split
+      · rw [renamePass_inputs _ _ (hmat.nocoll hany)]; exact hmat.nocoll hany
+      · exact nodup_advInputs _ _
+    · exact nodup_advInputs _ _
+
 end FV.Props.C04
